@@ -315,6 +315,8 @@ def run(ck):
         from rules.parcommon import check_comp_threaded_all
         nct = check_comp_threaded_all(ck, tu, ("tlx::multiway_merge_detail::", "tlx::parallel_multiway_merge", "tlx::multiway_merge_"))
         ck.require(nct >= 2, "no standard ordering algorithm found below the expected namespaces")
+        from rules import c08
+        ck.require(c08.check_partition_in(ck, tu) >= 1, "exact splitting must reach multisequence_partition")
         nt = c09.check_trees_in(ck, tu)
         ck.require(nt >= 4, "the per-thread merges use loser trees for k >= 5; expected 4 instantiated classes, found %d" % nt)
     m = len(types)
